@@ -373,6 +373,21 @@ theorem program_balanced (x : Sys) (h : Reach x) (a : Nat) (hf : x.ctl a = .fin)
   | true => have := hl.aut ts; rw [hv] at this; simp [owedCount] at this; omega
 
 open Logrange.TIndexProg in
+/-- `cursor.newCursor` with all its error paths (a filter that cannot be built, a position that cannot be applied, too
+many partitions, a failing `GetOrCreate`) is one of the caller programs, so `callers_follow_protocol`,
+`program_balanced` and `no_deadlock` cover it: each error path gives back exactly what was acquired, once. -/
+theorem newCursor_is_a_caller (sel : List Nat) (s : Nat) : isEntry (newCursorByQuery sel) ∧ isEntry (newCursorBySrc s) :=
+  ⟨trivial, trivial⟩
+
+open Logrange.TIndexProg in
+/-- … and once only: a control state that is about to `Release` the same partition twice (an error path calling both
+`cur.close()` and `releaseJournals`) is consistent with the caller's tokens only if it acquired the partition twice —
+after one acquisition the second `Release` is not enabled (it would take away somebody else's hold or panic). -/
+theorem double_release_needs_two_holds (a s : Nat) (st : St) (k : Ctl) (h : Local a (.rel s [s] k) st) :
+    2 ≤ st.c.holds.count ⟨a, s, false⟩ := by
+  rw [h.cli s]; simp [heldOf]
+
+open Logrange.TIndexProg in
 /-- **Counts return to zero when activity stops** — for the real callers, by theorem: when every caller has returned,
 no acquisition is outstanding, every live partition has `readers = 0` and none is exclusively locked. -/
 theorem callers_quiescent_zero (x : Sys) (h : Reach x) (hall : ∀ a, x.ctl a = .fin) :
